@@ -228,7 +228,7 @@ func runTimeline(tl timeline, dir string) outcome {
 	interval := time.Duration(tl.IntervalS) * time.Second
 	newApp := func() *log.RollingFileAppender {
 		return &log.RollingFileAppender{AppenderBase: log.AppenderBase{Name: "r"}, Layout: recLayout{},
-			FileDir: dir, FileName: tl.Name, Rotation: log.TimeRotation{Interval: interval}, MaxAge: int32([]int{1000, 1, 3}[len(tl.Writers)%3])}
+			FileDir: dir, FileName: tl.Name, Rotation: log.TimeRotation{Interval: interval}, MaxAge: int32([]int{1000, 1, 3, 600000, 2000000}[(len(tl.Writers)+len(tl.Name))%5])} // up to "keep for centuries" (the hours still fit a Duration)
 	}
 	app := newApp()
 	if tl.LateStartMS > 0 {
